@@ -62,6 +62,14 @@ func ioFaultPlan(tp *simrt.Tape, fc *ioFaultCfg, agentPid func() int) (func(op *
 		}
 		base := path.Base(op.Path)
 		name, class := "", ""
+		if op.Kind == "stat" && strings.HasPrefix(op.Path, missingDirPrefix) {
+			// not an injected fault: the look-up of a working directory that does not exist. The attempt ends
+			// here, without a process; the instant places the retry wait that follows
+			touched[base] = true
+			op.Proc.W.CountFault("missing_dir")
+			op.Proc.W.Emit("attempt_failed_in_setup", base, "missing-dir", 0, nil)
+			return simrt.Fault{}
+		}
 		switch {
 		case strings.HasPrefix(op.Path, logsDir+"/") && strings.HasSuffix(base, ".log"):
 			name = base[:strings.IndexByte(base, '.')]
